@@ -71,6 +71,12 @@ def run(tier):
             meta[rid] = (c, text, want)
     # (B) random printable-Unicode strings: the expectation is computed by TLC in... the same operators need symbols, so
     # these are classified symbol-wise and judged by the enumerated expectation rule (verbatim / dq->sq), kept small
+    # names that are also keys of the profile language must be treated as data like any other name
+    for w in ("violation", "warning", "info", "validations", "profile", "prefixes", "message", "targetClass", "nested"):
+        for k in ("profileName", "validationName"):
+            rid = "kw-%s/%s" % (w, k)
+            rows.append({"id": rid, "kind": k, "text": w, "present": {}})
+            meta[rid] = ({"kind": "verbatim", "s": ["q"], "present": [], "expect": ["q"]}, w, w)
     obs = vlib.run_harness("text", rows, "c13", timeout=3000)
     nontriv = 0
     skipped = 0
